@@ -8,12 +8,12 @@ SPEC = {
     "needs_plz": False,
     "level": "proof",
     "level_text": (
-        "lexer (lexer.go, every byte string): total, every buffer read in bounds given the two NUL sentinels, "
+        "Everything below is modulo Go's stack limit: 'never crashes the process' is known false for deep nesting (known finding parser-recursion-stack-overflow). lexer (lexer.go, every byte string): total, every buffer read in bounds given the two NUL sentinels, "
         "every error is l.fail(pos) with pos inside the input, token positions inside the input - full. "
         "parser (grammar_parse.go, all of it: statements, expressions, f-strings, concatStrings): never out of "
         "fuel (parse_total), never asks the lexer for a token past the one after EOF (in bounds), every error is "
         "a positioned lexer/parser error (C19_parse_errors, full since the concatStrings repair: fix commit 3f38189; "
-        "the old behaviour is kept as C19_old_concat_runtime_iff on the pre-fix fact value). Not in the model: Go's stack limit (recursion depth is "
+        "the old behaviour is kept as C19_old_concat_runtime_iff on the pre-fix fact value). Facts tie: nextToken's switch is summarised clause by clause, the inner loops (consumeString / consumeIdent / consumeInteger / the indent pop loop) have no fact of their own and are tied by the correspondence only. Not in the model: Go's stack limit (recursion depth is "
         "only exercised by the stress oracle; the lexer's self-recursion was repaired (fix commit e24fab1), the parser's nesting depth stays a known finding), l.line/l.col, AST contents beyond what decides the outcome"
     ),
     "technique": "Lean proof over a byte-level lexer model and a fuel-indexed model of the recursive-descent grammar (program logic over the parser monad, induction on fuel) + differential token streams / parse outcomes + direct outcome oracle",
